@@ -84,6 +84,9 @@ func (c *FnCtx) doCall(frame *Frame, st *State, in ssa.Instruction, call *ssa.Ca
 	name := calleeName(call)
 
 	if b, ok := call.Value.(*ssa.Builtin); ok {
+		if b.Name() == "delete" && !frame.inlined && frame.contract != nil && len(frame.contract.Asserts) > 0 {
+			c.checkCallSiteAsserts(frame, st, in, "builtin.delete")
+		}
 		c.builtin(frame, st, in, b, call, args, rt, k)
 		return
 	}
@@ -129,6 +132,7 @@ func (c *FnCtx) doCall(frame *Frame, st *State, in ssa.Instruction, call *ssa.Ca
 				fvs = append(fvs, c.val(st, b))
 			}
 			if fc := c.eng.cs.Funcs[key]; fc != nil {
+				c.callFVs = c.closureBindings(st, mc)
 				c.callByContract(frame, st, in, callee, fc, key, args, rt, k)
 				return
 			}
@@ -324,7 +328,8 @@ func (c *FnCtx) inlineCall(frame *Frame, st *State, in ssa.Instruction, callee *
 func (c *FnCtx) callByContract(frame *Frame, st *State, in ssa.Instruction, callee *ssa.Function, fc *FuncContract, key string, args []Val, rt types.Type, k func(st *State, res Val)) {
 	c.usedContracts[key] = fc
 	ord := c.callOrdinal(in, key)
-	env := &SpecEnv{c: c, st: st, heap: st.heap, vars: map[string]Val{}, frame: frame}
+	env := &SpecEnv{c: c, st: st, heap: st.heap, vars: map[string]Val{}, frame: frame, foreign: true, fvs: c.callFVs}
+	c.callFVs = nil
 	env.pkg = c.eng.pkgOf(fc.PkgPath)
 	if env.pkg == nil && frame != nil {
 		env.pkg = frame.fn.Pkg.Pkg
@@ -824,6 +829,9 @@ func (c *FnCtx) spawn(frame *Frame, st *State, x *ssa.Go) {
 		return
 	}
 	key := contractKeyForFunc(callee)
+	if !frame.inlined && frame.contract != nil && len(frame.contract.Asserts) > 0 {
+		c.checkCallSiteAsserts(frame, st, x, key)
+	}
 	fc := c.eng.cs.Funcs[key]
 	if fc == nil {
 		return
@@ -832,7 +840,10 @@ func (c *FnCtx) spawn(frame *Frame, st *State, x *ssa.Go) {
 	for _, a := range x.Call.Args {
 		args = append(args, c.val(st, a))
 	}
-	env := &SpecEnv{c: c, st: st, heap: st.heap, vars: map[string]Val{}, frame: frame, pkg: c.eng.pkgOf(fc.PkgPath)}
+	env := &SpecEnv{c: c, st: st, heap: st.heap, vars: map[string]Val{}, frame: frame, pkg: c.eng.pkgOf(fc.PkgPath), foreign: true}
+	if mc, ok := x.Call.Value.(*ssa.MakeClosure); ok {
+		env.fvs = c.closureBindings(st, mc)
+	}
 	names := c.paramNames(callee, fc, len(args))
 	for i, a := range args {
 		if i < len(names) {
@@ -849,6 +860,21 @@ func (c *FnCtx) spawn(frame *Frame, st *State, x *ssa.Go) {
 		}
 		c.addOblig(st, fmt.Sprintf("spawn:%s#%d:requires:%s", short, ord, r.Label), "precondition", t, r.Text, x.Pos())
 	}
+}
+
+// closureBindings maps the names of a closure's captured variables to the pointers to their cells.
+func (c *FnCtx) closureBindings(st *State, mc *ssa.MakeClosure) map[string]Val {
+	m := map[string]Val{}
+	fn, ok := mc.Fn.(*ssa.Function)
+	if !ok {
+		return m
+	}
+	for i, b := range mc.Bindings {
+		if i < len(fn.FreeVars) {
+			m[fn.FreeVars[i].Name()] = c.val(st, b)
+		}
+	}
+	return m
 }
 
 var _ = token.NoPos
